@@ -74,7 +74,15 @@ def energy_spectra(
             ln_e_over_a = u * ln_ba
         else:
             # E^mp = a^mp + u (b^mp - a^mp) = a^mp (1 + u expm1(x))
-            ln_e_over_a = np.log1p(u * np.expm1(x)) / mp
+            ln_e_over_a = np.log1p(u * np.expm1(x))
+            if x < -0.5:
+                # steep spectrum over wide bounds: e^x << 1 is rounded away in
+                # expm1(x) = e^x - 1, yet it is all that is left of 1 + u expm1(x)
+                # = (1 - u) + u e^x next to u = 1. Both terms are exact there.
+                hi = u >= 0.5
+                uh = np.minimum(u[hi], 1.0)
+                ln_e_over_a[hi] = np.log((1.0 - uh) + uh * np.exp(x))
+            ln_e_over_a = ln_e_over_a / mp
         log_e_nu = spectra.lower_bound + ln_e_over_a / np.log(10.0)
         # rounding (and u in [1, 1 + eps)) must not leave the configured range
         return np.clip(log_e_nu, spectra.lower_bound, spectra.upper_bound)
